@@ -37,6 +37,9 @@ func (l *vfLis) Accept() (net.Conn, error) {
 		l.tempErrs--
 		return nil, vfTempErr{}
 	}
+	if l.isClosed { // Accept on a closed socket fails, whatever is still queued
+		return nil, vfErrClosed
+	}
 	select {
 	case c := <-l.queue:
 		return c, nil
@@ -96,6 +99,7 @@ func vfNewListener(limit uint32, handler ConnHandlerFunc) *listener {
 // remains; the connection statistics are conserved (C20.a).
 func VfC09_ListenerStop() {
 	nd.ConcreteClock(true)
+	nd.LazyTimers(true) // Stop / Drain may arrive while the bind-retry timer is pending
 	nconns := nd.Concrete(nd.IntRange("conns", 0, nd.Param("conns", 2)))
 	lis := &vfLis{queue: make(chan net.Conn, 4), closed: make(chan struct{})}
 	var conns []*vfCliConn
@@ -164,6 +168,67 @@ func VfC09_ListenerStop() {
 		nd.Assert(d.CxActive.Value() == 0, "downstream active-connection gauge is zero after stop")
 		nd.Assert(d.CxTotal.Value() == d.CxDestroyTotal.Value(), "downstream total connections = destroyed connections after stop")
 	}
+}
+
+// VfC17_Drain: "stop accepting new connections" (the hot-restart drain step) holds from the moment
+// Drain returns: whether the listener was already serving or still retrying to bind its port
+// (address in use by the old process), it accepts no connection afterwards, its listening socket
+// is closed, connections that were being served are left alone, and a later Stop returns.
+func VfC17_Drain() {
+	nd.ConcreteClock(true)
+	nd.LazyTimers(true) // the bind-retry timer may still be pending when Drain arrives
+	lis := &vfLis{queue: make(chan net.Conn, 4), closed: make(chan struct{})}
+	bindFails := nd.Concrete(nd.IntRange("bind-failures", 0, 2))
+	attempts := 0
+	oldListen := defaultListenFunc
+	defer func() { defaultListenFunc = oldListen }()
+	defaultListenFunc = func(proto, addr string) (net.Listener, error) {
+		attempts++
+		if attempts <= bindFails {
+			return nil, errors.New("vf: address already in use")
+		}
+		return lis, nil
+	}
+	handled := 0
+	l := vfNewListener(0, func(conn net.Conn) {
+		handled++
+		buf := make([]byte, 1)
+		conn.Read(buf)
+	})
+	var early *vfCliConn
+	if bindFails == 0 && nd.Bool("a-connection-is-being-served") {
+		early = &vfCliConn{closed: make(chan struct{})}
+		lis.queue <- early
+	}
+	served := false
+	go func() { l.Serve(); served = true }()
+	nd.PanicLabel("drain")
+	nd.Quiesce() // serving, or waiting for the next bind attempt (the timer may have fired already)
+	before := handled
+	l.Drain()
+	late := &vfCliConn{closed: make(chan struct{})}
+	if !lis.isClosed {
+		lis.queue <- late // a client connects after the drain (a closed socket refuses it)
+	}
+	nd.Quiesce()
+	if !lis.isClosed && attempts > bindFails {
+		lis.queue <- late // ... or once the port got bound after all
+		nd.Quiesce()
+	}
+	nd.Assert(handled == before, "no connection is accepted after Drain returned (also when the port was not bound yet)")
+	nd.Assert(attempts <= bindFails || lis.isClosed, "the listening socket is closed by Drain")
+	if early != nil {
+		nd.Assert(!early.isClosed, "Drain leaves established connections alone")
+		nd.Cover("drained-while-serving")
+	}
+	if bindFails > 0 {
+		nd.Cover("drained-while-binding")
+	}
+	stopped := false
+	go func() { l.Stop(); stopped = true }()
+	nd.Quiesce()
+	nd.Assert(stopped && served, "Stop returns after a drain and the serving goroutine ends")
+	nd.Assert(handled == before, "no connection is accepted after Drain and Stop")
 }
 
 // VfC09_Limit: a connection is admitted exactly when the limit is 0 or fewer than `limit`
